@@ -44,7 +44,7 @@ def cases(tier, seed):
             for pol in (POLICIES if n in (0, 2, 255, 257) else ['inorder', 'dupdelay', 'stale', 'cachenotify']):
                 add(n, SIZES[(SIZES.index(n) * 5 + 3) % len(SIZES)] if proto >= 4 else min(n + 1, 255), proto, pol,
                     latin=(n % 2 == 1))
-    nrand = 150 if tier == 'quick' else 3000
+    nrand = 400 if tier == 'quick' else 3000
     for _ in range(nrand):
         proto = rnd.choice((-1, 0, 3, 4, 7, 10, 10))
         mx = 255 if proto < 4 else (60 if rnd.random() < 0.85 else 400)
